@@ -16,9 +16,12 @@ import re
 import sys
 
 
+sys.path.insert(0, os.path.dirname(os.path.abspath(__file__)))
+from _exec import ShapeMismatch, dump  # noqa: E402
+
+
 def die(msg):
-    print(f"gen/value_shape.py: shape mismatch: {msg}")
-    sys.exit(1)
+    raise ShapeMismatch(msg)
 
 
 def lean_chars(s):
@@ -46,11 +49,7 @@ def strip_comments(s):
     return re.sub(r"//[^\n]*", "", s)
 
 
-def main():
-    if len(sys.argv) != 3:
-        print("usage: value_shape.py <repo> <outdir>")
-        sys.exit(2)
-    repo, outdir = sys.argv[1], sys.argv[2]
+def extract(repo):
     path = os.path.join(repo, "src/haystack/val/value.rs")
     try:
         src = open(path, encoding="utf-8").read()
@@ -107,6 +106,33 @@ def main():
     if len(preds) + len(others) != n_is:
         die(f"{n_is} `fn is_*` in impl Value but {len(preds) + len(others)} recognised (signature other than `pub fn is_x(&self) -> bool`?)")
 
+    return variants, preds, others
+
+
+def by_execution():
+    d = dump("c19")
+    if d is None:
+        return None
+    return [tuple(x) for x in d["variants"]], [tuple(x) for x in d["preds"]], list(d["otherPreds"])
+
+
+def main():
+    if len(sys.argv) != 3:
+        print("usage: value_shape.py <repo> <outdir>")
+        sys.exit(2)
+    repo, outdir = sys.argv[1], sys.argv[2]
+    how = "source text"
+    try:
+        tables = extract(repo)
+    except ShapeMismatch as e:
+        tables = by_execution()
+        if tables is None:
+            print(f"gen/value_shape.py: shape mismatch: {e}")
+            sys.exit(1)
+        how = "execution"
+        print(f"FALLBACK value_shape: value.rs no longer has the parsed shape ({e}); tables taken from `hsverif dump c19` (derived order and every is_* test executed on a value of each variant)")
+    variants, preds, others = tables
+
     L = ["/-  GENERATED by gen/value_shape.py from /repo/src/haystack/val/value.rs — do not edit.  -/",
          "namespace Hs.Gen.ValueShape", "",
          "/-- variants of `enum Value` in declaration order; `true` = the variant carries a payload -/",
@@ -125,7 +151,7 @@ def main():
     out = os.path.join(outdir, "ValueShape.lean")
     if not (os.path.exists(out) and open(out, encoding="utf-8").read() == text):
         open(out, "w", encoding="utf-8").write(text)
-    print(f"gen/value_shape.py: {len(variants)} variants, {len(preds)} variant tests -> {out}")
+    print(f"gen/value_shape.py ({how}): {len(variants)} variants, {len(preds)} variant tests -> {out}")
 
 
 if __name__ == "__main__":
